@@ -197,8 +197,9 @@ public:
 
   void removeFront(usize size)
   {
-    bufferStart += size;
-    if(bufferStart >= bufferEnd)
+    if(size < (usize)(bufferEnd - bufferStart)) // (compared as sizes: start + size may wrap for huge sizes)
+      bufferStart += size;
+    else
     {
       bufferStart = bufferEnd = buffer ? buffer : (byte*)&_capacity;
       if(buffer)
@@ -208,7 +209,7 @@ public:
 
   void removeBack(usize size)
   {
-    if(bufferStart + size >= bufferEnd)
+    if(size >= (usize)(bufferEnd - bufferStart)) // (compared as sizes: start + size may wrap for huge sizes)
       bufferStart = bufferEnd = buffer ? buffer : (byte*)&_capacity;
     else
       bufferEnd -= size;
